@@ -78,3 +78,87 @@ macro_rules! write_term_harness {
 write_term_harness!(c03_write_term_2, 2);
 write_term_harness!(c03_write_term_3, 3);
 write_term_harness!(c03_write_term_4, 4);
+
+// ---------------------------------------------------------------------------------------------
+// write_term must escape the lexical form whatever the datatype is (ill-typed literals are legal RDF): one symbolic
+// ASCII byte (or the empty string) as lexical form, datatype symbolic among xsd:string, the four "shorthand" XSD
+// types and a non-XSD IRI. Oracle: the expected output prefix, written out explicitly.
+#[derive(Debug, Clone, Copy)]
+pub struct DtLit {
+    pub buf: [u8; 1],
+    pub len: usize,
+    pub d: u8,
+}
+pub fn dt_text(d: u8) -> &'static str {
+    match d {
+        0 => "x:d",
+        1 => "http://www.w3.org/2001/XMLSchema#integer",
+        2 => "http://www.w3.org/2001/XMLSchema#decimal",
+        3 => "http://www.w3.org/2001/XMLSchema#double",
+        4 => "http://www.w3.org/2001/XMLSchema#boolean",
+        _ => "http://www.w3.org/2001/XMLSchema#string",
+    }
+}
+impl Term for DtLit {
+    type BorrowTerm<'x> = &'x Self;
+    fn kind(&self) -> TermKind {
+        TermKind::Literal
+    }
+    fn lexical_form(&self) -> Option<MownStr<'_>> {
+        Some(MownStr::from_ref(unsafe { std::str::from_utf8_unchecked(&self.buf[..self.len]) }))
+    }
+    fn datatype(&self) -> Option<IriRef<MownStr<'_>>> {
+        Some(IriRef::new_unchecked_const(dt_text(self.d)).map_unchecked(MownStr::from_ref))
+    }
+    fn language_tag(&self) -> Option<LanguageTag<MownStr<'_>>> {
+        None
+    }
+    fn borrow_term(&self) -> &Self {
+        self
+    }
+}
+
+#[cfg(kani)]
+#[kani::proof]
+#[kani::unwind(8)]
+pub fn c03_write_term_datatypes() {
+    let b: u8 = kani::any();
+    kani::assume(b < 0x80);
+    let len: usize = kani::any();
+    kani::assume(len <= 1);
+    let d: u8 = kani::any();
+    kani::assume(d <= 5);
+    let lit = DtLit { buf: [b], len, d };
+    let mut w = ArrW::new();
+    let r = crate::serializer::nt::write_term(&mut w, &lit);
+    assert!(r.is_ok(), "write_term failed although the writer never fails");
+    assert!(w.buf[0] == b'"', "literal does not start with a quote");
+    let special = b == b'\n' || b == b'\r' || b == b'"' || b == b'\\';
+    let q = if len == 0 {
+        1
+    } else if special {
+        let e = match b {
+            b'\n' => b'n',
+            b'\r' => b'r',
+            other => other,
+        };
+        assert!(w.buf[1] == b'\\' && w.buf[2] == e, "a character that must be escaped was written raw (or escaped wrongly)");
+        3
+    } else {
+        assert!(w.buf[1] == b, "lexical form changed");
+        2
+    };
+    assert!(w.buf[q] == b'"', "closing quote missing right after the lexical form");
+    if d == 5 {
+        assert!(w.len == q + 1 && !w.overflow, "xsd:string literal must end at the closing quote");
+    } else {
+        assert!(w.buf[q + 1] == b'^' && w.buf[q + 2] == b'^' && w.buf[q + 3] == b'<', "datatype marker missing");
+        let t = dt_text(d).as_bytes();
+        assert!(w.buf[q + 4] == t[0] && w.buf[q + 5] == t[1], "datatype IRI differs");
+        if d == 0 {
+            assert!(w.len == q + 8 && w.buf[q + 7] == b'>');
+        }
+    }
+    kani::cover!(special && d == 1, "escaped character in an xsd:integer literal");
+    kani::cover!(len == 0 && d == 5, "empty xsd:string");
+}
